@@ -12,7 +12,9 @@ Extracted, with a shape check for each item (TranslateError when the shape is go
   condition, the bincode function and config, whether the consumed length is checked, and the
   post-decode sub-pattern bound check (operator);
 * the bincode configurations used for the globals blob (Compiler::build / Rules::globals);
-* the field list of `struct Rules` with its serde attributes (order = wire order).
+* the field list of `struct Rules` and of the structs nested in it (RuleInfo, PatternInfo,
+  SubPatternAtom, FilesizeBounds, Atom) with their serde attributes (order = wire order); any
+  other attribute on these structs or their fields is an error.
 """
 import re
 from tlib import *
@@ -81,13 +83,28 @@ def bincode_call(body, fn_re, what):
     return m.group(1), config_desc(cfg), m.start()
 
 
+SERDE_FIELD_ITEMS = {"skip": "FSkipped", "serialize_with": "FCustom", "deserialize_with": "FCustom"}
+
+
 def struct_fields(s, name):
-    body, _, _ = block_after(s, r"pub\s+struct\s+" + name + r"\s*\{", f"struct {name}")
-    body = strip_comments(body)
-    fields, attrs, i = [], [], 0
-    # split on top-level commas
-    depth, start = 0, 0
-    items = []
+    """[(field, kind, type, ser_fn, de_fn)] of `struct name`, in declaration (= wire) order.
+    Any attribute on the struct or on a field that is not a doc comment, a derive containing
+    Serialize+Deserialize, or one of the serde field attributes understood here (skip,
+    serialize_with/deserialize_with) is an error: it could change the wire format."""
+    m = re.compile(r"((?:#\[[^\]]*\]\s*)*)pub(?:\([^)]*\))?\s+struct\s+" + name + r"\s*\{", re.S).search(strip_comments(s))
+    if not m:
+        raise TranslateError(f"struct {name} not found")
+    code = strip_comments(s)
+    cattrs = [re.sub(r"\s+", "", a) for a in re.findall(r"#\[(.*?)\]", m.group(1), re.S)]
+    derive = [a for a in cattrs if a.startswith("derive(")]
+    if not derive or not all(any(re.search(r"\b" + t + r"\b", d) for d in derive) for t in ("Serialize", "Deserialize")):
+        raise TranslateError(f"struct {name}: derive(Serialize, Deserialize) not found")
+    for a in cattrs:
+        if not a.startswith("derive("):
+            raise TranslateError(f"struct {name}: unexpected container attribute #[{a}]")
+    j = match_brace(code, m.end() - 1)
+    body = code[m.end():j]
+    depth, start, items = 0, 0, []
     for i, ch in enumerate(body):
         if ch in "([{<": depth += 1
         elif ch in ")]}>":
@@ -96,21 +113,36 @@ def struct_fields(s, name):
         elif ch == "," and depth == 0:
             items.append(body[start:i]); start = i + 1
     items.append(body[start:])
+    fields = []
     for it in items:
         it = it.strip()
         if not it: continue
-        attrs = re.findall(r"#\[(.*?)\]\s*(?=#\[|pub|[a-z_])", it, re.S)
-        m = re.search(r"(?:pub(?:\([^)]*\))?\s+)?([a-z_][a-z_0-9]*)\s*:\s*(.+)$", re.sub(r"#\[.*?\]\s*(?=#\[|pub|[a-z_])", "", it, flags=re.S).strip(), re.S)
-        if not m:
+        attrs = []
+        while it.startswith("#"):
+            k = it.index("[")
+            e = match_brace(it, k, "[", "]")
+            attrs.append(re.sub(r"\s+", "", it[k + 1:e])); it = it[e + 1:].strip()
+        fm = re.match(r"(?:pub(?:\([^)]*\))?\s+)?([a-z_][a-z_0-9]*)\s*:\s*(.+)$", it, re.S)
+        if not fm:
             raise TranslateError(f"struct {name}: cannot parse field {it[:60]!r}")
-        kind = "FPlain"
+        kind, ser_fn, de_fn = "FPlain", "", ""
         for a in attrs:
-            a1 = re.sub(r"\s+", "", a)
-            if a1.startswith("serde("):
-                if "skip" in a1: kind = "FSkipped"
-                elif "serialize_with" in a1 or "deserialize_with" in a1 or "with=" in a1: kind = "FCustom"
-                else: raise TranslateError(f"struct {name}: unknown serde attribute {a!r}")
-        fields.append((m.group(1), kind, re.sub(r"\s+", " ", m.group(2).strip())))
+            sm = re.match(r"serde\((.*)\)$", a)
+            if not sm:
+                raise TranslateError(f"struct {name}.{fm.group(1)}: unexpected attribute #[{a}]")
+            for item in [x for x in sm.group(1).split(",") if x]:
+                key, _, val = item.partition("=")
+                if key not in SERDE_FIELD_ITEMS:
+                    raise TranslateError(f"struct {name}.{fm.group(1)}: unexpected serde attribute {item!r}")
+                if key == "skip" and val:
+                    raise TranslateError(f"struct {name}.{fm.group(1)}: unexpected serde attribute {item!r}")
+                if SERDE_FIELD_ITEMS[key] == "FSkipped": kind = "FSkipped"
+                elif kind != "FSkipped": kind = "FCustom"
+                if key == "serialize_with": ser_fn = val.strip('"')
+                if key == "deserialize_with": de_fn = val.strip('"')
+        if kind == "FCustom" and not (ser_fn and de_fn):
+            raise TranslateError(f"struct {name}.{fm.group(1)}: serialize_with and deserialize_with must come together")
+        fields.append((fm.group(1), kind, re.sub(r"\s+", " ", fm.group(2).strip()), ser_fn, de_fn))
     if not fields:
         raise TranslateError(f"struct {name}: no fields")
     return fields
@@ -212,10 +244,18 @@ def main():
     _, gl_ser_cfg, _ = bincode_call(ccode[m.end():m.end() + 600], r"encode_to_vec", "Compiler::build globals")
 
     fields = struct_fields(rules, "Rules")
+    nested = [("rule_info", struct_fields(rules, "RuleInfo")), ("pattern_info", struct_fields(rules, "PatternInfo")),
+              ("sub_pattern_atom", struct_fields(rules, "SubPatternAtom")), ("filesize_bounds", struct_fields(rules, "FilesizeBounds")),
+              ("atom", struct_fields(src("lib/src/compiler/atoms/mod.rs"), "Atom"))]
 
     def nlist(xs): return "[" + "; ".join(str(x) for x in xs) + "]%N"
-    ftxt = ";\n   ".join(f'("{n}"%string, {k})' for n, k, _ in fields)
-    fcomment = "\n".join(f"     {n} : {coq_comment_safe(t)}  [{k}]" for n, k, t in fields)
+    def flist(fs): return ";\n   ".join(f'("{n}"%string, {k})' for n, k, _, _, _ in fs)
+    ftxt = flist(fields)
+    fcomment = "\n".join(f"     {n} : {coq_comment_safe(t)}  [{k}]" for n, k, t, _, _ in fields)
+    custom = "; ".join(f'("{n}"%string, "{a}"%string, "{b}"%string)' for n, k, _, a, b in fields if k == "FCustom")
+    nested_txt = "\n".join(
+        "(* struct %s:\n%s *)\nDefinition %s_fields : list (string * field_kind) :=\n  [%s].\n" % (
+            nm, "\n".join(f"     {n} : {coq_comment_safe(t)}  [{k}]" for n, k, t, _, _ in fs), nm, flist(fs)) for nm, fs in nested)
     text = f"""(* GENERATED by translate/gen_codec.py from lib/src/compiler/rules.rs and
    lib/src/compiler/mod.rs -- do not edit; regenerated on every check. *)
 From Coq Require Import List NArith String.
@@ -265,7 +305,11 @@ Definition globals_de_cfg : bincfg := {coq_cfg(gl_de_cfg)}.
 {fcomment} *)
 Definition rules_fields : list (string * field_kind) :=
   [{ftxt}].
-"""
+(* fields with serialize_with / deserialize_with: (field, serializer, deserializer) *)
+Definition rules_custom : list (string * string * string) := [{custom}].
+
+(* structs nested in Rules (field order = wire order) *)
+{nested_txt}"""
     write_if_changed("CodecGen.v", text)
 
 
